@@ -25,6 +25,22 @@ func init() {
 	sim.OtherReplays["codec"] = ReplayFile
 	sim.OtherDumps["codec"] = func(verifSeed uint64, prop string, n int64, binDir string) string {
 		var sb strings.Builder
+		if only := os.Getenv("VERIF_DUMP_ONLY"); only != "" {
+			// debugging aid: one run index, alone and again after its 300 predecessors in a 16-worker split
+			idx, _ := strconv.ParseInt(only, 10, 64)
+			s := Gen(sim.RunSeed(verifSeed, prop, idx))
+			r := Run(s)
+			b, _ := json.MarshalIndent(s, "", " ")
+			fmt.Fprintf(&sb, "alone %016x\n%s\n%s\n", r.TraceHash, b, strings.Join(r.Log, "\n"))
+			for k := int64(300); k >= 1; k-- {
+				if j := idx - 16*k; j >= 0 {
+					Run(Gen(sim.RunSeed(verifSeed, prop, j)))
+				}
+			}
+			r2 := Run(Gen(sim.RunSeed(verifSeed, prop, idx)))
+			fmt.Fprintf(&sb, "after predecessors %016x\n%s\n", r2.TraceHash, strings.Join(r2.Log, "\n"))
+			return sb.String()
+		}
 		for i := int64(0); i < n; i++ {
 			s := Gen(sim.RunSeed(verifSeed, prop, i))
 			r := Run(s)
@@ -267,7 +283,7 @@ func callFork(c *FnCall) (o fnOut) {
 				o.Skipped = true // precondition of UnmarshalValid*: the text was validated
 				return
 			}
-			t := NewTarget(c.Target, c.TypeSeed)
+			t := PrefilledTarget(c.Target, c.TypeSeed, c.Prefill)
 			var err error
 			switch c.Fn {
 			case FUnmarshal:
@@ -280,7 +296,7 @@ func callFork(c *FnCall) (o fnOut) {
 				o.Keys, err = fj.UnmarshalValidWithKeys(c.Text, t)
 			}
 			o.Keys = append([]string(nil), o.Keys...)
-			if (c.Fn == FUnmarshalWithKeys || c.Fn == FUnmarshalValidWithKeys) && err == nil && isMapTarget(c.Target) {
+			if (c.Fn == FUnmarshalWithKeys || c.Fn == FUnmarshalValidWithKeys) && err == nil && isMapTarget(c.Target) && len(c.Prefill) == 0 {
 				if root, perr := jr.Parse(c.Text); perr == nil && root.K == jr.Obj {
 					o.KeysCmp = fmt.Sprintf("%q", o.Keys)
 				}
@@ -334,7 +350,7 @@ func callStd(c *FnCall) (o fnOut) {
 		*flakyCtl = FlakyCtl{FailAt: c.FailAt, Panic: c.Panic}
 		switch c.Fn {
 		case FUnmarshal, FUnmarshalWithKeys, FUnmarshalValid, FUnmarshalValidWithKeys:
-			t := NewTarget(c.Target, c.TypeSeed)
+			t := PrefilledTarget(c.Target, c.TypeSeed, c.Prefill)
 			err := sj.Unmarshal(c.Text, t)
 			o.Val, o.Err = Render(t, false), errRender(err)
 		case FMarshal, FMarshalEscaped, FMarshalIndent:
@@ -403,7 +419,7 @@ func callStd(c *FnCall) (o fnOut) {
 var pristineFn = map[string]fnOut{}
 
 func fnKey(c *FnCall) string {
-	return fmt.Sprintf("%d|%d|%d|%v|%q|%q|%d|%v|%s", c.Fn, c.Target, c.TypeSeed, c.Escape, c.Prefix, c.Indent, c.FailAt, c.Panic, c.Text)
+	return fmt.Sprintf("%d|%d|%d|%v|%q|%q|%d|%v|%q|%s", c.Fn, c.Target, c.TypeSeed, c.Escape, c.Prefix, c.Indent, c.FailAt, c.Panic, c.Prefill, c.Text)
 }
 
 func pristineCall(c *FnCall) fnOut {
@@ -572,7 +588,7 @@ func runFn(s *Scen, res *Result) {
 		}
 		valid := jr.Valid(c.Text)
 		// (c) round trip of dynamic values
-		if valid && got.Err == "" && c.Target == TAny && c.Fn <= FUnmarshalValidWithKeys {
+		if valid && got.Err == "" && c.Target == TAny && c.Fn <= FUnmarshalValidWithKeys && len(c.Prefill) == 0 {
 			w.BeginCall(c.ID+5000, 99, nil, 0)
 			out, err := fj.Marshal(got.val)
 			var back any
